@@ -504,6 +504,7 @@ cgsitrf(superlu_options_t *options, SuperMatrix *A, int relax, int panel_size,
 			int_t nzlumax = Glu->nzlumax;
 			int error = cLUMemXpand(jj, xlusup[jj], LUSUP, &nzlumax, Glu);
 			if (error) { *info = error; goto cleanup; }
+			lsub = Glu->lsub; /* moved along inside a user work[] */
 		    }
 		    xlusup[jj + 1]++;
 		    ((singlecomplex *) Glu->lusup)[xlusup[jj]] = zero;
